@@ -176,15 +176,14 @@ func TestRandom(t *testing.T) {
 	})
 }
 
-// TestReplay re-runs a saved case without rapid.
-func TestReplay(t *testing.T) {
-	f, err := ev.ReplayCase()
-	if err != nil {
-		t.Skip("no replay file")
-	}
+func replayOne(t *testing.T, f *ev.Failure) bool {
 	var c Case
 	if err := json.Unmarshal(f.Case, &c); err != nil {
 		t.Fatalf("bad replay case: %v", err)
 	}
 	ev.Report(t, f.Unit, c, ev.Guard(func() error { return checkCase(c) }))
+	return true
 }
+
+func TestReplay(t *testing.T)  { ev.RunReplay(t, replayOne) }
+func TestRegress(t *testing.T) { ev.RunRegress(t, replayOne) }
